@@ -66,6 +66,29 @@ func TypeRef(depth int) *rapid.Generator[*ref.Type] {
 var intPool = []string{"0", "-0", "1", "-1", "42", "2147483647", "2147483648", "-2147483649", "9223372036854775807", "9223372036854775808", "123456789012345678901234567890"}
 var floatPool = []string{"0.0", "-0.0", "1.5", "-1.5", "1e3", "1E3", "1e+3", "1e-3", "1.5e10", "0.1e-7", "1e999", "-1.0E+0"}
 
+// integerPart: -? ( 0 | NonZeroDigit Digit* )
+func integerPart(t *rapid.T) string {
+	sign := rapid.SampledFrom([]string{"", "", "-"}).Draw(t, "sign")
+	if rapid.IntRange(0, 2).Draw(t, "zero") == 0 {
+		return sign + "0"
+	}
+	return sign + rapid.StringMatching(`[1-9][0-9]{0,4}`).Draw(t, "digits")
+}
+
+// FloatLiteral: IntegerPart followed by a fractional part, an exponent part, or both, every
+// alternative of the grammar being reachable (0e0, -0E-3, 0.0e+00, ...).
+func FloatLiteral(t *rapid.T) string {
+	s := integerPart(t)
+	shape := rapid.IntRange(0, 2).Draw(t, "shape")
+	if shape != 1 {
+		s += "." + rapid.StringMatching(`[0-9]{1,3}`).Draw(t, "frac")
+	}
+	if shape != 0 {
+		s += rapid.SampledFrom([]string{"e", "E"}).Draw(t, "e") + rapid.SampledFrom([]string{"", "+", "-"}).Draw(t, "esign") + rapid.StringMatching(`[0-9]{1,2}`).Draw(t, "exp")
+	}
+	return s
+}
+
 // Value generates a value literal; isConst forbids variables.
 func Value(depth int, isConst bool) *rapid.Generator[*ref.Value] {
 	return rapid.Custom(func(t *rapid.T) *ref.Value {
@@ -81,8 +104,14 @@ func Value(depth int, isConst bool) *rapid.Generator[*ref.Value] {
 		case 0:
 			return &ref.Value{Kind: "Variable", Raw: Name().Draw(t, "var")}
 		case 1:
+			if rapid.IntRange(0, 2).Draw(t, "intFromGrammar") == 0 {
+				return &ref.Value{Kind: "Int", Raw: integerPart(t)}
+			}
 			return &ref.Value{Kind: "Int", Raw: rapid.SampledFrom(intPool).Draw(t, "int")}
 		case 2:
+			if rapid.IntRange(0, 1).Draw(t, "floatFromGrammar") == 0 {
+				return &ref.Value{Kind: "Float", Raw: FloatLiteral(t)}
+			}
 			return &ref.Value{Kind: "Float", Raw: rapid.SampledFrom(floatPool).Draw(t, "float")}
 		case 3:
 			return &ref.Value{Kind: "String", Raw: StringContent().Draw(t, "str")}
